@@ -445,6 +445,12 @@ pub fn run_one(c: &Config, script: &Script, dev: &[(usize, usize)]) -> (Vec<(Str
 pub fn run(tier: Tier) -> i32 {
     let mut rep = Reporter::new("C01", tier, "model_checking");
     let cfgs = configs(tier);
+    // determinism self-check: a few executions twice, with and without a departure
+    for c in cfgs.iter().step_by(cfgs.len() / 6 + 1) {
+        let spec = net_spec(c, (T_CONV + WINDOW) / SEC + 1);
+        assert_deterministic(&spec, &[], &[], SNAP);
+        assert_deterministic(&spec, &[], &[(3, 1)], SNAP);
+    }
     let k = tier.pick(1, 2);
     // per configuration: default execution + all executions with <= k deviations; fault scripts on a subset
     let results: Vec<(u64, usize, Vec<Violation>, Option<u64>)> = cfgs
